@@ -22,7 +22,6 @@ MODULE = 'XrlC13.Props.C13'
 NAMESPACE = 'Xrl.C13'
 PROPS_FILE = os.path.join(LEAN_DIR, 'XrlC13', 'Props', 'C13.lean')
 HARNESS = os.path.join(VERIF, 'harness', 'c13drv.c')
-PROPOSED = os.path.join(VERIF, 'notes', 'proposed_findings', 'C13.txt')
 CORPUS = os.path.join(VERIF, 'corpus')
 
 # known-finding keys (exact): one per defect of the unchanged tree, each with a proposed repair
@@ -694,14 +693,8 @@ def failing_theorems(build_log):
     return names
 
 def load_known():
-    out = list(core.load_known_findings().get(ID, []))
-    try:
-        for l in open(PROPOSED):
-            m = re.match(r'finding:\s+property=(C\d+)\s+key=\[([^\]]*)\]\s*(.*)', l.strip())
-            if m and m.group(1) == ID and m.group(2) not in [k for k, _ in out]: out.append((m.group(2), m.group(3)))
-    except OSError:
-        pass
-    return out
+    """the ONLY file that can suppress a violation is /verif/known_findings.txt"""
+    return list(core.load_known_findings().get(ID, []))
 
 def _errs(txt, n=6):
     errs = re.findall(r'error: [^\n]*(?:\n(?!error:|info:|trace:|✖|✔)[^\n]*){0,6}', txt)
